@@ -3,7 +3,7 @@ from specs.common import run, ASSUME_COMMON
 # one case = 8 environment strings + 2 merges + 2 detector strings, every ~20th case one forked
 # Resource::Create child (4..8 Create calls), every ~4th case one provider pipeline
 SPEC = {
-    "runs": [run("e1e5-resource-env", "c18_resource_env", "asan", 2500, 250000, need_lib=True)],
+    "runs": [run("e1e5-resource-env", "c18_resource_env", "asan", 2500, 200000, need_lib=True)],
     "floors": {
         "quick": {"env_strings": 5000,
                   "uint_must_accept": 300, "uint_must_default": 600, "uint_leading_minus_wraps_into_32bit": 100,
@@ -19,14 +19,14 @@ SPEC = {
                   "create_env_over_default_keys": 8, "create_fallback_service_name": 20,
                   "create_calls:process.executable.name-non-string": 8,
                   "provider_spans": 100, "provider_logs": 100, "provider_metric_batches": 100},
-        "thorough": {"env_strings": 600000, "uint_must_accept": 30000, "uint_leading_minus_wraps_into_32bit": 10000,
-                     "dur_must_accept": 30000, "dur_overflow_digit_runs": 10000, "dur_overflow_unit_conversions": 3000,
-                     "bool_must_accept": 30000, "float_must_accept": 30000, "stale_errno_on_must_accept": 50000,
-                     "merges": 150000, "merges_with_shared_keys": 80000,
-                     "detect_lists_canonical": 40000, "detect_service_name_over_attributes": 15000,
-                     "create_children": 3500, "create_calls": 20000, "create_caller_over_env_keys": 3000,
-                     "create_calls:process.executable.name-non-string": 800,
-                     "provider_spans": 10000, "provider_logs": 10000, "provider_metric_batches": 10000},
+        "thorough": {"env_strings": 480000, "uint_must_accept": 24000, "uint_leading_minus_wraps_into_32bit": 8000,
+                     "dur_must_accept": 24000, "dur_overflow_digit_runs": 8000, "dur_overflow_unit_conversions": 2400,
+                     "bool_must_accept": 24000, "float_must_accept": 24000, "stale_errno_on_must_accept": 40000,
+                     "merges": 120000, "merges_with_shared_keys": 64000,
+                     "detect_lists_canonical": 32000, "detect_service_name_over_attributes": 12000,
+                     "create_children": 2800, "create_calls": 16000, "create_caller_over_env_keys": 2400,
+                     "create_calls:process.executable.name-non-string": 640,
+                     "provider_spans": 8000, "provider_logs": 8000, "provider_metric_batches": 8000},
     },
     "engine": "E1 model-oracle",
     "engines_used": ["E1 model-oracle", "E5 process-per-case"],
@@ -57,7 +57,7 @@ SPEC = {
     "assumptions": ASSUME_COMMON + [
         "three-valued reader oracle: must-accept = true/false in any case; [0-9]+ <= 2^32-1; [0-9]+(ns|us|ms|s|m|h)? non-zero with a nanosecond count that fits int64; decimal floats (optional '-', fraction, exponent) in the normal float range; any non-empty string for the string reader",
         "must-default = empty, non-numeric, trailing junk, sign or space inside the number, > 32 bit, > 64 bit, a leading '-' before a non-zero number, overflowing digit runs or unit conversions; judged on the out-parameter (false / 0 / 0.0) and, for durations, on the return value (unset); the boolean 'exists' flag of the other readers is counted, not judged",
-        "don't-care (counted, never judged): leading whitespace or '+', trailing whitespace, '-0', zero durations, unit spelled in another case, inf/nan/hex floats, float underflow/subnormal, whitespace-padded 'true'",
+        "don't-care (counted, never judged): leading whitespace or '+', trailing whitespace, '-0', zero durations, unit spelled in another case, inf/nan/hex floats, float results at or below FLT_MIN (underflow/subnormal), whitespace-padded 'true'",
         "a duration without unit may be read as seconds (documented behaviour of this SDK) or milliseconds (specification)",
         "a crash or sanitizer report is a violation for every string, including don't-care ones",
         "OTEL_RESOURCE_ATTRIBUTES: well-formed pairs must come out exactly; tokens without '=' and empty tokens must contribute nothing; tokens with edge whitespace, '%', several '=', empty key or value, or bytes outside 0x21..0x7e may be absent or appear in any of the raw/trimmed/percent-decoded readings; if any token is not well-formed the whole variable may be discarded; a repeated key may carry any one of its values",
